@@ -212,8 +212,22 @@ func runRelay(e *core.Env) {
 		rec.Eval()
 		relayCase(e, i, r, j.S, j.C, j.batch)
 	})
-	// client address family change (SS2022 sessions follow the client's latest address)
+	// discarded datagrams inside the relay's downlink receive batches
 	k := len(jobs)
+	for _, S := range []string{"none", "socks5", "ss128"} {
+		for _, b := range []string{"", "no"} {
+			ci := k
+			k++
+			if e.Only >= 0 && e.Only != ci {
+				continue
+			}
+			rec.Begin("relay", ci, "downlink-junk "+S+" "+b)
+			rec.Eval()
+			r := core.NewRNG(e.Seed, "c11.junk", ci)
+			core.Guard(e, "relay", ci, func() { junkCase(e, ci, r, S, b) })
+		}
+	}
+	// client address family change (SS2022 sessions follow the client's latest address)
 	for _, S := range []string{"ss128", "ss256"} {
 		for _, b := range []string{"", "no"} {
 			ci := k
@@ -323,6 +337,140 @@ func roamCase(e *core.Env, ci int, S, batch string) {
 	}
 	rec.Class("%s>direct/batch=%q/roam-v4-to-v6", S, batch)
 	rec.Count("roam_cases", 1)
+}
+
+// junkCase: the harness plays the upstream Shadowsocks-none server itself, so that it can interleave valid replies with
+// datagrams the relay must discard (from a stranger's socket, or unparsable ones from the server) inside the same
+// receive batch on the relay's upstream-facing socket. The client must get exactly the valid replies.
+func junkCase(e *core.Env, ci int, r *core.RNG, S, batch string) {
+	rec := e.Rec
+	ports := svx.FreePorts(2)
+	t := &svx.Topo{Dir: filepath.Join(e.WorkDir, fmt.Sprintf("junk-%d", ci))}
+	so := svx.ServerOpts{UDP: true, BatchMode: batch, TCP: strings.HasPrefix(S, "socks5")}
+	up, err := net.ListenUDP("udp", &net.UDPAddr{IP: net.IPv4(127, 0, 0, 1)})
+	if err != nil {
+		rec.Inconclusive("junk upstream socket")
+		return
+	}
+	defer up.Close()
+	upPort := up.LocalAddr().(*net.UDPAddr).Port
+	cfg := map[string]any{
+		"servers": []any{t.Server("A", S, ports[0], so)},
+		"clients": []any{map[string]any{"name": "up", "protocol": "none", "endpoint": fmt.Sprintf("127.0.0.1:%d", upPort), "enableUDP": true, "mtu": 1500}},
+	}
+	inst, err := svx.Start(svx.JSON(cfg))
+	if err != nil {
+		rec.Inconclusive("junk setup: " + err.Error())
+		return
+	}
+	defer inst.Stop(20 * time.Second)
+	viol := func(kind, format string, a ...any) {
+		rec.Violate("relay", ci, core.Sig("kind", kind, "part", "relay", "S", S, "C", "none(harness)", "batch", batch, "scenario", "downlink-junk"), map[string]any{"logs": inst.LogLines(12)}, format, a...)
+	}
+	nl := 1
+	if so.TCP {
+		nl = 2
+	}
+	if !inst.WaitLogs("relay service listener", nl, 40*time.Second) {
+		rec.Inconclusive("junk listeners")
+		return
+	}
+	down, err := svx.NewClient(svx.JSON(t.ClientFor("down", "A", S, ports[0], 0, false, true)))
+	if err != nil {
+		rec.Inconclusive("junk client")
+		return
+	}
+	p, err := down.NewUDPPeer("127.0.0.1")
+	if err != nil {
+		rec.Inconclusive("junk peer: " + err.Error())
+		return
+	}
+	defer p.Close()
+	stranger, _ := net.ListenUDP("udp", &net.UDPAddr{IP: net.IPv4(127, 0, 0, 1)})
+	defer stranger.Close()
+	target := netip.MustParseAddrPort("203.0.113.77:7777")
+	tHdr := []byte{1, 203, 0, 113, 77, 0x1e, 0x61} // SOCKS address of the target
+	want := map[string]bool{}
+	rounds := e.N(6, 40)
+	buf := make([]byte, 65536)
+	for round := 0; round < rounds; round++ {
+		p.Send(conn.AddrFromIPPort(target), []byte(fmt.Sprintf("req-%d", round)))
+		// the relay's upstream-facing socket shows itself to the played server
+		type rx struct {
+			n    int
+			from netip.AddrPort
+		}
+		got := make(chan rx, 1)
+		go func() {
+			n, from, err := up.ReadFromUDPAddrPort(buf)
+			if err == nil {
+				got <- rx{n, from}
+			}
+		}()
+		var in rx
+		if !svx.Poll(30*time.Second, func() bool {
+			select {
+			case in = <-got:
+				return true
+			default:
+				return false
+			}
+		}) {
+			viol("datagram_or_reply_lost", "round %d: the datagram did not reach the upstream server", round)
+			return
+		}
+		if in.n < 7 || string(buf[7:in.n]) != fmt.Sprintf("req-%d", round) || !bytes.Equal(buf[:7], tHdr) {
+			viol("payload_corrupted", "round %d: upstream received %q", round, buf[:in.n])
+			return
+		}
+		// burst: valid replies interleaved with datagrams that must be discarded
+		nRep := r.Pick(4, 16, 16, 40)
+		for j := 0; j < nRep; j++ {
+			if r.Chance(1, 2) {
+				stranger.WriteToUDPAddrPort(append(append([]byte{}, tHdr...), []byte(fmt.Sprintf("STRANGER-%d-%d", round, j))...), in.from)
+			}
+			if r.Chance(1, 4) {
+				up.WriteToUDPAddrPort([]byte{byte(r.Pick(0, 2, 9)), 1, 2, 3}, in.from) // unparsable address type from the server itself
+			}
+			pl := fmt.Sprintf("rep-%d-%d-", round, j) + string(core.Pattern(uint64(round*100+j), 0, r.Pick(0, 10, 900)))
+			want[pl] = true
+			up.WriteToUDPAddrPort(append(append([]byte{}, tHdr...), pl...), in.from)
+		}
+		ok := svx.Poll(30*time.Second, func() bool { return len(p.Got())+len(p.Errs()) >= len(want) })
+		if !ok {
+			viol("datagram_or_reply_lost", "round %d: the client holds %d of %d valid replies", round, len(p.Got()), len(want))
+			return
+		}
+	}
+	vtime.RealSleep(20 * time.Millisecond)
+	if errs := p.Errs(); len(errs) > 0 {
+		viol("reply_corrupted", "the client received %d datagrams it could not decode (first: %s)", len(errs), errs[0])
+		return
+	}
+	seen := map[string]int{}
+	for _, d := range p.Got() {
+		pl := string(d.Payload)
+		if !want[pl] {
+			viol("reply_corrupted", "the client received a datagram the upstream never sent as a valid reply: %q (source %s)", core.Hex(d.Payload, 40), d.From)
+			return
+		}
+		seen[pl]++
+		if seen[pl] > 1 {
+			viol("reply_duplicated", "reply %q delivered twice", pl[:12])
+			return
+		}
+		if d.From != target {
+			viol("wrong_reply_source", "reply labelled with source %s, want %s", d.From, target)
+			return
+		}
+	}
+	if len(seen) != len(want) {
+		viol("datagram_or_reply_lost", "the client holds %d of %d valid replies", len(seen), len(want))
+		return
+	}
+	rec.Count("junk_rounds", int64(rounds))
+	rec.Count("junk_valid_replies", int64(len(want)))
+	rec.Class("%s>none(harness)/batch=%q/downlink-junk", S, batch)
 }
 
 func relayCase(e *core.Env, ci int, r *core.RNG, S, C, batch string) {
